@@ -7,7 +7,12 @@ leg 1: TLC proves on the lattice that the PROCEDURE the code runs (vertex test +
 leg 2: every table row is replayed into confidence_region_check_dominates: code TRUE => relaxed definition TRUE
        (soundness, all cones incl. 3-facet); strict definition TRUE => code TRUE (completeness, K = 2);
        on robust rows with exact data the code must equal the procedure.  3-D orthant rows: soundness.
+leg 3: (last sentence of the property) VOGP / EpsilonPAL runs on scripted lattice posteriors, a quarter of the designs exact twins of
+       others (ties, mutual domination): the pessimistic Pareto set handed to discarding() is recorded and validated by
+       VOTraceAlgo clause `pess` = VOAlgo!VogpPess over the pairwise relation (geometric where robust, the code's own pairwise
+       answer on exact ties).
 """
+from . import algocheck as AC
 from . import geomtab as T
 
 PART = "pdom"
@@ -28,8 +33,9 @@ def run(ctx):
     c3 += c3d
     bad3 += bad3d
     T.report(ctx, bad + bad3, "C11")
-    ctx.traces = len(rows) + len(rows3)
-    ctx.evaluations = calls + c3
+    AC.run_traces(ctx, "pess", "C11")
+    ctx.traces += len(rows) + len(rows3)
+    ctx.evaluations += calls + c3
     for r in rows + rows3:
         if r["ans"]["pdom"][0]:
             ctx.nontriv((r["cone"], r["r1"], r["r2"]))
@@ -47,6 +53,8 @@ def run(ctx):
 
 def replay(body):
     case = body["case"]
+    if "cfg" in case:
+        return AC.replay_case(body, "C11")
     row = dict(case["row"], allscales=True)
     if case["kind"].startswith("rect3"):
         _, bad = T.replay_rows3((PART, [row], 0))
